@@ -1,13 +1,42 @@
 #!/bin/bash
-# Applies every seeded change in /verif/seeded to /repo in turn, runs the quick check(s) of its property, reverts.
-# Prints one line per seed: CAUGHT / MISSED.  /repo must be clean.
+# Regression run over every kept seeded change (/verif/seeded/<id>_agent<k>/patch.diff).
+# /repo itself is never touched: every seed is applied in a scratch worktree of /repo HEAD (outside /repo and /verif) and
+# the checks import the library from there (PYTHONPATH=<worktree>/src overrides the editable install).  For each seed the
+# quick check of its own property runs first; when that stays silent, the other checks its meta.json names under
+# "detected_by" are tried.  Prints one line per seed: CAUGHT <check> <first signature> / MISSED / PATCH-DOES-NOT-APPLY.
+# usage: tools/all_seeds.sh [slots] [name-filter]      (evidence files are rewritten by these runs: re-run the checks on
+#                                                        /repo afterwards - tools/run_all.sh - before committing evidence)
 cd "$(dirname "$0")/.."
-cd /repo && git diff --quiet || { echo "repo dirty"; exit 9; }
-cd /verif
-for d in seeded/*/; do
-  name=$(basename $d); prop=${name%%_*}
-  git -C /repo apply "/verif/$d/patch.diff" 2>/dev/null || { echo "$name PATCH-DOES-NOT-APPLY"; continue; }
-  out=$(./check $prop quick 2>&1); rc=$?
-  git -C /repo checkout -- .
-  if echo "$out" | grep -q "^VIOLATION"; then echo "$name CAUGHT $(echo "$out" | grep -m1 signature | cut -c1-120)"; else echo "$name MISSED (rc=$rc)"; fi
+SLOTS=${1:-3}; FILTER=${2:-}
+TMP=$(mktemp -d /tmp/allseeds.XXXXXX)
+one() {
+  slot=$1; d=$2; name=$(basename $d); prop=${name%%_*}; wt=$TMP/wt$slot
+  [ -d $wt ] || git -C /repo worktree add -q --detach $wt HEAD
+  git -C $wt reset -q --hard HEAD; git -C $wt clean -fdq
+  if ! git -C $wt apply "/verif/$d/patch.diff" 2>/dev/null && ! git -C $wt apply -3 "/verif/$d/patch.diff" 2>/dev/null; then
+    git -C $wt reset -q --hard HEAD
+    echo "$name PATCH-DOES-NOT-APPLY"; return
+  fi
+  others=$(/venv/bin/python -c "
+import json,re,sys
+try: m=json.load(open('/verif/$d/meta.json'))
+except Exception: m={}
+print(' '.join(dict.fromkeys(c for c in re.findall(r'C[0-9][0-9]', m.get('detected_by','')) if c!='$prop')))")
+  for c in $prop $others; do
+    out=$(PYTHONPATH=$wt/src ./check $c quick 2>&1)
+    if echo "$out" | grep -q "^VIOLATION"; then echo "$name CAUGHT by $c $(echo "$out" | grep -m1 signature | cut -c1-110)"; return; fi
+  done
+  echo "$name MISSED (tried $prop $others)"
+}
+export -f one; export TMP
+i=0
+for d in seeded/*${FILTER}*/; do
+  [ -f $d/patch.diff ] || continue
+  echo "$((i % SLOTS)) $d"; i=$((i+1))
+done > $TMP/jobs
+for s in $(seq 0 $((SLOTS-1))); do
+  ( grep "^$s " $TMP/jobs | while read slot d; do one $slot $d; done ) &
 done
+wait
+for s in $(seq 0 $((SLOTS-1))); do [ -d $TMP/wt$s ] && git -C /repo worktree remove --force $TMP/wt$s; done
+git -C /repo worktree prune; rm -rf $TMP
